@@ -150,6 +150,19 @@ def mon_c01(cfg, s, rec, out, cnt):
                             {"confirmed_mode_result": [h.ret, h.err], "observed": v}))
 
 
+    sw = rec.get("sw")
+    if sw:
+        for k, v in sw.items():
+            m1, m2 = int(k[0]), int(k[1])
+            h = _hl(rec, m2, 0)
+            if h is None or h.ret < 0:
+                continue
+            cnt["switch.compared"] += 1
+            if [h.ret, h.err] != v:
+                out.append(("mode/second-setup-not-applied/%s->%s" % (MODES[m1], MODES[m2]), _wit(s, m2, 0),
+                            {"fresh_object_in_mode_%s" % MODES[m2]: [h.ret, h.err], "after_setup_%s_then_%s" % (MODES[m1], MODES[m2]): v}))
+
+
 # ------------------------------------------------------------------------------------------------- C12
 def mon_c12(cfg, s, rec, out, cnt):
     M = cfg.model
@@ -207,7 +220,13 @@ def truth(cfg, name, m, t, s, rec):
     if name == "EMAIL_EMPTY":
         return len(s) == 0
     if name == "DOMAIN_EMPTY":
-        return at < 0 or at == len(s) - 1
+        if at < 0 or at == len(s) - 1:
+            return True
+        # mode 6531 judges the A-label form: a domain made only of code points that IDNA maps to nothing converts to ""
+        if mode == "6531" and rec.get("dom") and s[at + 1:at + 2] != b"[":
+            d6 = DOM(rec["dom"])
+            return d6.i2rc == 0 and d6.i2out == b""
+        return False
     if at < 0:
         return False
     L, D = split(s, at)
